@@ -15,6 +15,10 @@ type Hit struct {
 	// Feat is the distance from P to the border of its smooth patch (edge,
 	// rim, apex, seam between analytic pieces); +Inf when the surface has none.
 	Feat float64
+	// Rad is (a lower bound of) the smallest radius of curvature of the surface
+	// at P; +Inf on planar patches. A position error e turns the normal by about
+	// e/Rad, so normals are only compared where Rad is not tiny.
+	Rad  float64
 	Bary [3]float64 // triangles only
 	Face int        // triangles only
 }
@@ -77,7 +81,7 @@ func (s *Sphere) RayHits(o, d V3) []Hit {
 		if sd > 0 {
 			p := o.Add(dh.Scale(sd))
 			n := p.Sub(s.C).Unit()
-			res = append(res, Hit{T: sd / dn, P: p, N: n, Tang: math.Abs(n.Dot(dh)), Feat: math.Inf(1)})
+			res = append(res, Hit{T: sd / dn, P: p, N: n, Tang: math.Abs(n.Dot(dh)), Feat: math.Inf(1), Rad: s.R})
 		}
 	}
 	return res
@@ -145,7 +149,7 @@ func (b *Box) RayHits(o, d V3) []Hit {
 			}
 			var n [3]float64
 			n[i] = float64(2*side - 1)
-			res = append(res, Hit{T: s / dn, P: Arr3(p), N: Arr3(n), Tang: math.Abs(da[i]), Feat: feat})
+			res = append(res, Hit{T: s / dn, P: Arr3(p), N: Arr3(n), Tang: math.Abs(da[i]), Feat: feat, Rad: math.Inf(1)})
 		}
 	}
 	return res
@@ -222,7 +226,7 @@ func (c *Cylinder) RayHits(o, d V3) []Hit {
 		z, perp := c7axial(p, c.P1, a)
 		if z > -borderSlack*l && z < l*(1+borderSlack) {
 			n := perp.Unit()
-			res = append(res, Hit{T: s / dn, P: p, N: n, Tang: math.Abs(n.Dot(dh)), Feat: math.Max(0, math.Min(z, l-z))})
+			res = append(res, Hit{T: s / dn, P: p, N: n, Tang: math.Abs(n.Dot(dh)), Feat: math.Max(0, math.Min(z, l-z)), Rad: c.R})
 		}
 	}
 	dz := dh.Dot(a)
@@ -238,7 +242,7 @@ func (c *Cylinder) RayHits(o, d V3) []Hit {
 			rho := perp.Norm()
 			if rho < c.R*(1+borderSlack) {
 				n := a.Scale(float64(2*k - 1))
-				res = append(res, Hit{T: s / dn, P: p, N: n, Tang: math.Abs(dz), Feat: math.Max(0, c.R-rho)})
+				res = append(res, Hit{T: s / dn, P: p, N: n, Tang: math.Abs(dz), Feat: math.Max(0, c.R-rho), Rad: math.Inf(1)})
 			}
 		}
 	}
@@ -272,7 +276,7 @@ func (c *Capsule) RayHits(o, d V3) []Hit {
 		z, perp := c7axial(p, c.P1, a)
 		if z >= 0 && z <= l {
 			n := perp.Unit()
-			res = append(res, Hit{T: s / dn, P: p, N: n, Tang: math.Abs(n.Dot(dh)), Feat: math.Min(z, l-z)})
+			res = append(res, Hit{T: s / dn, P: p, N: n, Tang: math.Abs(n.Dot(dh)), Feat: math.Min(z, l-z), Rad: c.R})
 		}
 	}
 	for k, ctr := range [2]V3{c.P1, c.P2} {
@@ -361,7 +365,7 @@ func (c *Cone) RayHits(o, d V3) []Hit {
 		if z > -borderSlack*h && z < h*(1+borderSlack) {
 			rh := perp.Unit()
 			n := rh.Scale(h).Add(a.Scale(c.R)).Unit()
-			res = append(res, Hit{T: s / dn, P: p, N: n, Tang: math.Abs(n.Dot(dh)), Feat: math.Max(0, math.Min(z, h-z)*slant)})
+			res = append(res, Hit{T: s / dn, P: p, N: n, Tang: math.Abs(n.Dot(dh)), Feat: math.Max(0, math.Min(z, h-z)*slant), Rad: perp.Norm()})
 		}
 	}
 	if dz != 0 {
@@ -370,7 +374,7 @@ func (c *Cone) RayHits(o, d V3) []Hit {
 			p := o.Add(dh.Scale(s))
 			_, perp := c7axial(p, c.Base, a)
 			if rho := perp.Norm(); rho < c.R*(1+borderSlack) {
-				res = append(res, Hit{T: s / dn, P: p, N: a.Scale(-1), Tang: math.Abs(dz), Feat: math.Max(0, c.R-rho)})
+				res = append(res, Hit{T: s / dn, P: p, N: a.Scale(-1), Tang: math.Abs(dz), Feat: math.Max(0, c.R-rho), Rad: math.Inf(1)})
 			}
 		}
 	}
@@ -430,7 +434,7 @@ func (t *Torus) RayHits(o, d V3) []Hit {
 		}
 		ring := perp.Scale(R / rho)
 		n := perp.Sub(ring).Add(t.A.Scale(z)).Unit()
-		res = append(res, Hit{T: s / dn, P: p, N: n, Tang: math.Abs(n.Dot(dh)), Feat: math.Inf(1)})
+		res = append(res, Hit{T: s / dn, P: p, N: n, Tang: math.Abs(n.Dot(dh)), Feat: math.Inf(1), Rad: math.Min(r, R-r)})
 	}
 	return res
 }
@@ -533,7 +537,7 @@ func RayTri(o, dh V3, t [3]V3) (hit Hit, ok bool) {
 	if w0 <= 0 || w1 <= 0 || w2 <= 0 {
 		feat = 0
 	}
-	return Hit{T: s, P: p, N: nu, Tang: math.Abs(den), Feat: feat, Bary: [3]float64{w0, w1, w2}}, true
+	return Hit{T: s, P: p, N: nu, Tang: math.Abs(den), Feat: feat, Rad: math.Inf(1), Bary: [3]float64{w0, w1, w2}}, true
 }
 
 func (m *Mesh) RayHits(o, d V3) []Hit {
@@ -673,6 +677,7 @@ func (s *Similarity3) RayHits(o, d V3) []Hit {
 		hs[i].P = s.apply(hs[i].P)
 		hs[i].N = s.lin(hs[i].N)
 		hs[i].Feat *= s.S
+		hs[i].Rad *= s.S
 	}
 	return hs
 }
@@ -715,7 +720,7 @@ func (p *Prism) RayHits(o, d V3) []Hit {
 			if z > p.Z0-sl && z < p.Z1+sl {
 				n := V3{h.N.X, h.N.Y, 0}
 				res = append(res, Hit{T: h.T / dn, P: V3{h.P.X, h.P.Y, z}, N: n,
-					Tang: math.Abs(n.Dot(dh)), Feat: math.Max(0, math.Min(h.Feat, math.Min(z-p.Z0, p.Z1-z)))})
+					Tang: math.Abs(n.Dot(dh)), Feat: math.Max(0, math.Min(h.Feat, math.Min(z-p.Z0, p.Z1-z))), Rad: h.Rad})
 			}
 		}
 	}
@@ -728,7 +733,7 @@ func (p *Prism) RayHits(o, d V3) []Hit {
 			q := o.XY().Add(d2.Scale(s))
 			if sd := p.Base.SDF(q); sd > -borderSlack*p.Base.Size() {
 				res = append(res, Hit{T: s / dn, P: V3{q.X, q.Y, zc}, N: V3{0, 0, float64(2*k - 1)},
-					Tang: math.Abs(dh.Z), Feat: math.Max(0, sd)})
+					Tang: math.Abs(dh.Z), Feat: math.Max(0, sd), Rad: math.Inf(1)})
 			}
 		}
 	}
